@@ -531,7 +531,7 @@ func oracles(c *hk.Ctx, g *gen, outbox map[string]map[string][]int, pending int)
 					Observed: map[string]any{"request_sent_to_session": to, "answer_posted_by_session": p, "ListRoots_returned_payload": parts[2]}, Expected: "the foreign answer is ignored"})
 			}
 		}
-		if o.T == "settle" && g.rets[i] == "failed" {
+		if o.T == "settle" && strings.HasSuffix(g.rets[i], "failed") {
 			// was there an answer from the addressee with the right id before? then it was lost
 			for j := 0; j < i; j++ {
 				q := g.ops[j]
@@ -541,7 +541,7 @@ func oracles(c *hk.Ctx, g *gen, outbox map[string]map[string][]int, pending int)
 							if to, ok2 := reqTo[*o.M]; ok2 && *q.P == to && g.issuedID(*o.M) == v {
 								fp := "routing:own-answer-not-accepted:" + name
 								what := "the addressee posted an answer bearing the request's id (HTTP 202) but the waiting ListRoots never got it"
-								if v >= 1000000 {
+								if v >= 1000000 && name == "streamable" {
 									fp = "routing:answer-lost-from-1e6:" + name
 									what += " [D01: the pending table is keyed by fmt.Sprintf(\"%v\", id); the posted id decodes to float64 and renders as 1e+06]"
 								}
